@@ -226,5 +226,21 @@ pub fn random_tree<const K: usize>(rng: &mut crate::rng::Rng, target: usize, rem
             next_val += 1;
         }
     }
+    // leave holes in the arena: removals at the very end are not filled up again
+    if removals && rng.chance(0.5) {
+        for _ in 0..(1 + rng.below(2)) {
+            let cand: Vec<usize> = m.nodes.keys().cloned().filter(|i| *i != m.root).collect();
+            if cand.len() < 2 {
+                break;
+            }
+            let c = *rng.pick(&cand);
+            let (p, l) = m.label_in_parent(c).unwrap();
+            if t.try_remove_child(p, l).is_ok() {
+                m.remove_descendants(c);
+                m.nodes.remove(&c);
+                m.nodes.get_mut(&p).unwrap().children[l] = None;
+            }
+        }
+    }
     (t, m)
 }
